@@ -1172,68 +1172,77 @@ Proof.
   eexists. eexists. split; [vm_compute; reflexivity|]. split; [vm_compute; reflexivity|]. split; vm_compute; reflexivity.
 Qed.
 
-(* 25. PathSegmentsMut::push / extend, EXACTLY, and the class F-C06-7 (Proofs/C06_SegPush.v).
-   extend() skips a segment only when it is literally "." or ".." (seg_skipped); every other segment is handed to
-   parse_path in the PathSegmentSetter context, whose input drops TAB / LF / CR.  A segment whose TAB/LF/CR-free text
-   (strip_tnl) is "." or ".." is therefore read as a dot segment: push(".<TAB>.") on http://h/a/b POPS the segment "b"
-   (http://h/a/), push(".<LF>") appends an empty segment - while push("..") / push(".") are skipped as documented.
-   That class is known_c06_7 (computable); no "%2e" spelling is in it: '%' is in the PATH_SEGMENT sets, so it comes out
-   as "%25" (witness below).
+(* 25. PathSegmentsMut::push / extend, EXACTLY; finding F-C06-7 is FIXED (Proofs/C06_SegPush.v).
+   extend() skips a segment when its TAB/LF/CR-free text (strip_tnl) - the text parse_path will see: its input drops
+   TAB / LF / CR - is "." or ".." (Setters.psm_skips, the repaired test); every other segment is handed to parse_path in
+   the PathSegmentSetter context.  Before the repair (rust-url commit 9cd6187) the test was made on the raw argument:
+   push(".<TAB>.") on http://h/a/b was read as ".." by the path state and POPPED the segment "b" (http://h/a/),
+   push(".<LF>") appended an empty segment - while push("..") / push(".") were skipped as documented.  C06_7_fixed is the
+   regression: all four leave http://h/a/b alone now.  No "%2e" spelling is skipped or read as a dot segment: '%' is in
+   the PATH_SEGMENT sets, so it comes out as "%25" (witness below).
      session_text st P ops   the path text after the operations ops, computed on the path text P alone:
        clear          -> the first byte of P ("/"; "" stays "")
        pop_if_empty   -> P without its last byte when that is a '/' behind the first byte
        pop            -> P up to its last '/' behind the first byte (up to the first byte when there is none)
-       push seg       -> push_text st P seg  (C06_push_text_unfold: P itself for "." / "..", otherwise
-                         P, a '/' unless P is exactly one byte long, and the percent-encoding (PATH_SEGMENT or
+       push seg       -> push_text st P seg  (C06_push_text_unfold: P itself when seg without TAB/LF/CR is "." / "..",
+                         otherwise P, a '/' unless P is exactly one byte long, and the percent-encoding (PATH_SEGMENT or
                          SPECIAL_PATH_SEGMENT by scheme type st) of the UTF-8 bytes of seg without TAB/LF/CR)
        extend segs    -> push after push
-   C06_frame_segments_exact: for a well-formed record that is not cannot-be-a-base, scheme type other than file, &str
-   arguments outside known_c06_7: the record a whole session returns is with_path u (session_text ...) - the very record
+   C06_frame_segments_exact: for a well-formed record that is not cannot-be-a-base, scheme type other than file, EVERY
+   &str argument: the record a whole session returns is with_path u (session_text ...) - the very record
    whose frame / invariant C06_frame_path (and _noauth, _marker) state, now with the path text explicit; the old path is
-   a prefix of the new one for push / extend (C06_push_keeps_prefix).  C06_7_class_exact: for one push of a segment that
-   extend does not skip, the verbatim text is appended IF AND ONLY IF the segment is outside known_c06_7.
+   a prefix of the new one for push / extend (C06_push_keeps_prefix): no existing segment is touched.
+   C06_7_class_exact: one push of ANY &str segment gives push_text (the former class F-C06-7 is empty).
    Not covered: the file scheme (drive-letter rewriting "C|" -> "C:" and, with a TAB inside the segment, a '/' inserted
    behind a drive letter: file:/// push("C:<TAB>x") gives file:///C:/x). *)
 From RU Require Import Proofs.C06_SegPush.
 
-Theorem C06_7_refuted :
-  wf_b w7_url = true /\ known_c06_7 [46; 9; 46] = true /\ known_c06_7 [46; 10] = true
-  /\ known_c06_7 [46; 46] = false /\ known_c06_7 [37; 50; 101; 9; 46] = false
-  /\ (forall dbg, path_segments_session dbg w7_url [PPush [46; 9; 46]] = Some (w7_popped, SOk))
+Theorem C06_7_fixed :
+  wf_b w7_url = true /\ psm_skips [46; 9; 46] = true /\ psm_skips [46; 10] = true /\ psm_skips [13; 46; 9; 46; 10] = true
+  /\ psm_skips [46; 46] = true /\ psm_skips [46] = true /\ psm_skips [37; 50; 101; 9; 46] = false
+  /\ psm_skips [46; 9; 46; 46] = false /\ psm_skips [9] = false
+  /\ (forall dbg, path_segments_session dbg w7_url [PPush [46; 9; 46]] = Some (w7_url, SOk))
   /\ (forall dbg, path_segments_session dbg w7_url [PPush [46; 46]] = Some (w7_url, SOk))
-  /\ (forall dbg, path_segments_session dbg w7_url [PPush [46; 10]] = Some (with_path w7_url [47;97;47;98;47], SOk))
+  /\ (forall dbg, path_segments_session dbg w7_url [PPush [46; 10]] = Some (w7_url, SOk))
+  /\ (forall dbg, path_segments_session dbg w7_url [PPush [46]] = Some (w7_url, SOk))
+  /\ (forall dbg, path_segments_session dbg w7_url [PExtend [[46; 9; 46]; [120]; [10; 46]]]
+                  = Some (with_path w7_url [47;97;47;98;47;120], SOk))
   /\ (forall dbg, path_segments_session dbg w7_url [PPush [37; 50; 101; 9; 46]]
                   = Some (with_path w7_url [47;97;47;98;47;37;50;53;50;101;46], SOk))
-  /\ path w7_popped = Some [47; 97; 47]
-  /\ w7_popped <> with_path w7_url (push_text (st_of w7_url) (path_bytes w7_url) [46; 9; 46]).
-Proof. exact c06_7_witness. Qed.
-Check C06_7_refuted :
-  wf_b w7_url = true /\ known_c06_7 [46; 9; 46] = true /\ known_c06_7 [46; 10] = true
-  /\ known_c06_7 [46; 46] = false /\ known_c06_7 [37; 50; 101; 9; 46] = false
-  /\ (forall dbg, path_segments_session dbg w7_url [PPush [46; 9; 46]] = Some (w7_popped, SOk))
+  /\ push_text (st_of w7_url) (path_bytes w7_url) [46; 9; 46] = path_bytes w7_url
+  /\ path w7_url = Some [47; 97; 47; 98].
+Proof. exact c06_7_fixed_witness. Qed.
+Check C06_7_fixed :
+  wf_b w7_url = true /\ psm_skips [46; 9; 46] = true /\ psm_skips [46; 10] = true /\ psm_skips [13; 46; 9; 46; 10] = true
+  /\ psm_skips [46; 46] = true /\ psm_skips [46] = true /\ psm_skips [37; 50; 101; 9; 46] = false
+  /\ psm_skips [46; 9; 46; 46] = false /\ psm_skips [9] = false
+  /\ (forall dbg, path_segments_session dbg w7_url [PPush [46; 9; 46]] = Some (w7_url, SOk))
   /\ (forall dbg, path_segments_session dbg w7_url [PPush [46; 46]] = Some (w7_url, SOk))
-  /\ (forall dbg, path_segments_session dbg w7_url [PPush [46; 10]] = Some (with_path w7_url [47;97;47;98;47], SOk))
+  /\ (forall dbg, path_segments_session dbg w7_url [PPush [46; 10]] = Some (w7_url, SOk))
+  /\ (forall dbg, path_segments_session dbg w7_url [PPush [46]] = Some (w7_url, SOk))
+  /\ (forall dbg, path_segments_session dbg w7_url [PExtend [[46; 9; 46]; [120]; [10; 46]]]
+                  = Some (with_path w7_url [47;97;47;98;47;120], SOk))
   /\ (forall dbg, path_segments_session dbg w7_url [PPush [37; 50; 101; 9; 46]]
                   = Some (with_path w7_url [47;97;47;98;47;37;50;53;50;101;46], SOk))
-  /\ path w7_popped = Some [47; 97; 47]
-  /\ w7_popped <> with_path w7_url (push_text (st_of w7_url) (path_bytes w7_url) [46; 9; 46]).
-Print Assumptions C06_7_refuted.
+  /\ push_text (st_of w7_url) (path_bytes w7_url) [46; 9; 46] = path_bytes w7_url
+  /\ path w7_url = Some [47; 97; 47; 98].
+Print Assumptions C06_7_fixed.
 
-(* the witness records are "http://h/a/b" and "http://h/a/" *)
-Example C06_7_witness_text : ser w7_url = B "http://h/a/b" /\ ser w7_popped = B "http://h/a/".
-Proof. split; vm_compute; reflexivity. Qed.
+(* the witness record is "http://h/a/b" *)
+Example C06_7_witness_text : ser w7_url = B "http://h/a/b".
+Proof. vm_compute; reflexivity. Qed.
 
 Theorem C06_frame_segments_exact : forall dbg u ops u', wf_b u = true ->
   byte_eqb (ser u) (scheme_end u + 1) 47 = true -> st_is_file (st_of u) = false ->
-  Forall psm_op_usv ops -> Forall psm_op_plain ops -> path_segments_session dbg u ops = Some (u', SOk) ->
+  Forall psm_op_usv ops -> path_segments_session dbg u ops = Some (u', SOk) ->
   path u = Some (path_bytes u) /\ u' = with_path u (session_text (st_of u) (path_bytes u) ops).
 Proof.
-  intros dbg u ops u' W Hsl Hnf Hu Hp H. split; [exact (path_text_is_path u W)|].
-  exact (path_segments_session_exact dbg u ops u' W Hsl Hnf Hu Hp H).
+  intros dbg u ops u' W Hsl Hnf Hu H. split; [exact (path_text_is_path u W)|].
+  exact (path_segments_session_exact dbg u ops u' W Hsl Hnf Hu H).
 Qed.
 Check C06_frame_segments_exact : forall dbg u ops u', wf_b u = true ->
   byte_eqb (ser u) (scheme_end u + 1) 47 = true -> st_is_file (st_of u) = false ->
-  Forall psm_op_usv ops -> Forall psm_op_plain ops -> path_segments_session dbg u ops = Some (u', SOk) ->
+  Forall psm_op_usv ops -> path_segments_session dbg u ops = Some (u', SOk) ->
   path u = Some (path_bytes u) /\ u' = with_path u (session_text (st_of u) (path_bytes u) ops).
 Print Assumptions C06_frame_segments_exact.
 
@@ -1241,7 +1250,6 @@ Print Assumptions C06_frame_segments_exact.
 Example C06_frame_segments_exact_inhabited :
   wf_b w7_url = true /\ byte_eqb (ser w7_url) (scheme_end w7_url + 1) 47 = true /\ st_is_file (st_of w7_url) = false
   /\ Forall psm_op_usv [PPush [120; 9; 121]; PExtend [[46; 46]; [99; 47; 37]; []]; PPop; PPush [233]]
-  /\ Forall psm_op_plain [PPush [120; 9; 121]; PExtend [[46; 46]; [99; 47; 37]; []]; PPop; PPush [233]]
   /\ path_segments_session true w7_url [PPush [120; 9; 121]; PExtend [[46; 46]; [99; 47; 37]; []]; PPop; PPush [233]]
      = Some (with_path w7_url [47;97;47;98;47;120;121;47;99;37;50;70;37;50;53;47;37;67;51;37;65;57], SOk)
   /\ session_text (st_of w7_url) (path_bytes w7_url) [PPush [120; 9; 121]; PExtend [[46; 46]; [99; 47; 37]; []]; PPop; PPush [233]]
@@ -1250,21 +1258,19 @@ Proof. exact session_exact_example. Qed.
 
 Theorem C06_push_text_unfold : forall st P seg ss,
   push_text st P seg
-  = (if list_eqb seg [46] || list_eqb seg [46; 46] then P
+  = (if list_eqb (filter not_tnl seg) [46] || list_eqb (filter not_tnl seg) [46; 46] then P
      else (if (1 <? nlen P) || (nlen P =? 0) then P ++ [47] else P)
           ++ encode (path_set CPathSegmentSetter st) (utf8_encode (filter not_tnl seg)))
   /\ extend_text st P ss = fold_left (push_text st) ss P
-  /\ known_c06_7 seg = negb (list_eqb seg [46] || list_eqb seg [46; 46])
-                       && (list_eqb (filter not_tnl seg) [46] || list_eqb (filter not_tnl seg) [46; 46]).
+  /\ psm_skips seg = (list_eqb (filter not_tnl seg) [46] || list_eqb (filter not_tnl seg) [46; 46]).
 Proof. intros. repeat split; reflexivity. Qed.
 Check C06_push_text_unfold : forall st P seg ss,
   push_text st P seg
-  = (if list_eqb seg [46] || list_eqb seg [46; 46] then P
+  = (if list_eqb (filter not_tnl seg) [46] || list_eqb (filter not_tnl seg) [46; 46] then P
      else (if (1 <? nlen P) || (nlen P =? 0) then P ++ [47] else P)
           ++ encode (path_set CPathSegmentSetter st) (utf8_encode (filter not_tnl seg)))
   /\ extend_text st P ss = fold_left (push_text st) ss P
-  /\ known_c06_7 seg = negb (list_eqb seg [46] || list_eqb seg [46; 46])
-                       && (list_eqb (filter not_tnl seg) [46] || list_eqb (filter not_tnl seg) [46; 46]).
+  /\ psm_skips seg = (list_eqb (filter not_tnl seg) [46] || list_eqb (filter not_tnl seg) [46; 46]).
 Print Assumptions C06_push_text_unfold.
 
 Theorem C06_push_keeps_prefix : forall st P seg segs,
@@ -1276,24 +1282,23 @@ Print Assumptions C06_push_keeps_prefix.
 
 (* s0 = the serialization in front of the path, P = the path text during the session *)
 Theorem C06_7_class_exact : forall dbg st s0 ps P seg s', nlen s0 = ps -> st_is_file st = false -> usv_list seg ->
-  psm_extend_loop dbg st ps (s0 ++ P) [seg] = Some s' ->
-  (s' = s0 ++ push_text st P seg <-> known_c06_7 seg = false).
-Proof. exact push_class_exact. Qed.
+  psm_extend_loop dbg st ps (s0 ++ P) [seg] = Some s' -> s' = s0 ++ push_text st P seg.
+Proof. exact push_exact. Qed.
 Check C06_7_class_exact : forall dbg st s0 ps P seg s', nlen s0 = ps -> st_is_file st = false -> usv_list seg ->
-  psm_extend_loop dbg st ps (s0 ++ P) [seg] = Some s' ->
-  (s' = s0 ++ push_text st P seg <-> known_c06_7 seg = false).
+  psm_extend_loop dbg st ps (s0 ++ P) [seg] = Some s' -> s' = s0 ++ push_text st P seg.
 Print Assumptions C06_7_class_exact.
 
-(* both sides of the equivalence occur: on "http://h/a/b" (s0 = "http://h", P = "/a/b") *)
+(* on "http://h/a/b" (s0 = "http://h", P = "/a/b"): a segment of the former class is skipped, another one appended *)
 Example C06_7_class_exact_inhabited :
-  psm_extend_loop true STSpecialNotFile 8 (B "http://h" ++ B "/a/b") [[46; 9; 46]] = Some (B "http://h/a/")
+  psm_extend_loop true STSpecialNotFile 8 (B "http://h" ++ B "/a/b") [[46; 9; 46]] = Some (B "http://h/a/b")
+  /\ push_text STSpecialNotFile (B "/a/b") [46; 9; 46] = B "/a/b"
   /\ psm_extend_loop true STSpecialNotFile 8 (B "http://h" ++ B "/a/b") [[120; 9; 46]] = Some (B "http://h/a/b/x.")
   /\ push_text STSpecialNotFile (B "/a/b") [120; 9; 46] = B "/a/b/x.".
 Proof. repeat split; vm_compute; reflexivity. Qed.
 
 (* 26. path_segments_mut sessions and set_ip_host as STEPS of the histories (Proofs/C06_PushCanon.v, C06_AllPsm.v).
-   C06_psm_canon: a whole session - any sequence of clear / pop / pop_if_empty / push / extend, arguments outside
-   F-C06-7 - on a canonical record (C02's Canon) with an authority returns a canonical record: the exact evaluation of
+   C06_psm_canon: a whole session - any sequence of clear / pop / pop_if_empty / push / extend, ANY &str arguments
+   (F-C06-7 is fixed) - on a canonical record (C02's Canon) with an authority returns a canonical record: the exact evaluation of
    section 25 is an operation on the canonical path (segments, last segment), and a pushed segment is a good segment
    of the class (clean for PATH, no '/', no '\' for special schemes, not a dot segment).
    ReachC6p (C06_AllPsm.v) = the histories of C06_all (ReachC6) + path_segments_mut sessions on URLs with an
@@ -1309,11 +1314,11 @@ From RU Require Import Model.Host Proofs.C02_Hist Proofs.C16_RT6Model Proofs.C02
   Proofs.C06_PsmEx.
 
 Theorem C06_psm_canon : forall dbg hp hpo hd u ops u', HostRT hp hpo hd -> Canon hp hpo hd u ->
-  has_authority_b u = true -> Forall psm_op_usv ops -> Forall psm_op_plain ops ->
+  has_authority_b u = true -> Forall psm_op_usv ops ->
   path_segments_session dbg u ops = Some (u', SOk) -> nlen (ser u') <= U32_MAX_P -> Canon hp hpo hd u'.
 Proof. intros dbg hp hpo hd u ops u' HRT. exact (psm_Canon dbg hp hpo hd HRT u ops u'). Qed.
 Check C06_psm_canon : forall dbg hp hpo hd u ops u', HostRT hp hpo hd -> Canon hp hpo hd u ->
-  has_authority_b u = true -> Forall psm_op_usv ops -> Forall psm_op_plain ops ->
+  has_authority_b u = true -> Forall psm_op_usv ops ->
   path_segments_session dbg u ops = Some (u', SOk) -> nlen (ser u') <= U32_MAX_P -> Canon hp hpo hd u'.
 Print Assumptions C06_psm_canon.
 
@@ -1330,14 +1335,14 @@ Print Assumptions C06_all_p.
 
 (* psm_calls spelled out (pin of the definition) *)
 Theorem C06_psm_calls_unfold : forall dbg hp hpo hd u, psm_calls dbg hp hpo hd u <->
-  (forall ops u', has_authority_b u = true -> Forall psm_op_usv ops -> Forall psm_op_plain ops ->
+  (forall ops u', has_authority_b u = true -> Forall psm_op_usv ops ->
     path_segments_session dbg u ops = Some (u', SOk) -> nlen (ser u') <= U32_MAX_P ->
     Canon hp hpo hd u' /\ u' = with_path u (session_text (st_of u) (path_bytes u) ops)
     /\ path u = Some (path_bytes u) /\ path u' = Some (session_text (st_of u) (path_bytes u) ops)
     /\ same_front dbg u u' /\ query dbg u' = query dbg u /\ fragment dbg u' = fragment dbg u).
 Proof. intros. reflexivity. Qed.
 Check C06_psm_calls_unfold : forall dbg hp hpo hd u, psm_calls dbg hp hpo hd u <->
-  (forall ops u', has_authority_b u = true -> Forall psm_op_usv ops -> Forall psm_op_plain ops ->
+  (forall ops u', has_authority_b u = true -> Forall psm_op_usv ops ->
     path_segments_session dbg u ops = Some (u', SOk) -> nlen (ser u') <= U32_MAX_P ->
     Canon hp hpo hd u' /\ u' = with_path u (session_text (st_of u) (path_bytes u) ops)
     /\ path u = Some (path_bytes u) /\ path u' = Some (session_text (st_of u) (path_bytes u) ops)
@@ -1353,7 +1358,7 @@ Check C06_reach_c6_c3_p : forall dbg hp hpo hd u, HostOK2 hp hpo hd ->
 Print Assumptions C06_reach_c6_c3_p.
 
 (* non-vacuity, on the host model with the IDNA oracle idna_clean:
-   parse "http://h/a/b" ; path_segments_mut { push("x<TAB>y"), pop, extend(["..", "c d"]) } ; set_ip_host(127.0.0.1) *)
+   parse "http://h/a/b" ; path_segments_mut { push("x<TAB>y"), pop, extend(["..", ".<TAB>.", "c d"]) } ; set_ip_host(127.0.0.1) *)
 Example C06_all_p_inhabited :
   HostOK2 (host_parse idna_clean) host_parse_opaque host_display /\ host_nonempty (host_parse idna_clean) host_parse_opaque
   /\ exists u0 u1 u2, parse_url true (host_parse idna_clean) host_parse_opaque host_display None None (B "http://h/a/b") = POk u0
@@ -1471,25 +1476,23 @@ Example C06_splice_agreement_set_path_noauth_inhabited :
   /\ splice_path na_u (B "/x y/../z") = B "a:/x y/../z".
 Proof. exact (splice_noauth_inhabited ex_hp ex_hp ex_hd). Qed.
 
-(* 30. The class F-C06-7 is also exact on file URLs whose path is longer than "/" and does not start with "//"
+(* 30. push is also exact (every &str segment) on file URLs whose path is longer than "/" and does not start with "//"
    (file_path_inv; true of every parsed file URL): parse_path's file-only steps - a '/' inserted behind a normalized
    drive letter that is the whole path so far, the rewriting of a drive-letter first segment "C|" to "C:", the collapse
    of leading slashes - cannot occur there.  On the root path "/" they can (file:/// push("C|") gives file:///C:,
    push("C:<TAB>x") gives file:///C:/x - two segments from one push; replayed on the crate): not covered. *)
 Theorem C06_7_class_exact_file : forall dbg s0 ps P seg s', nlen s0 = ps -> 1 < nlen P -> file_path_inv P -> usv_list seg ->
-  psm_extend_loop dbg STFile ps (s0 ++ P) [seg] = Some s' ->
-  (s' = s0 ++ push_text STFile P seg <-> known_c06_7 seg = false).
-Proof. exact push_class_exact_file. Qed.
+  psm_extend_loop dbg STFile ps (s0 ++ P) [seg] = Some s' -> s' = s0 ++ push_text STFile P seg.
+Proof. exact push_exact_file. Qed.
 Check C06_7_class_exact_file : forall dbg s0 ps P seg s', nlen s0 = ps -> 1 < nlen P -> file_path_inv P -> usv_list seg ->
-  psm_extend_loop dbg STFile ps (s0 ++ P) [seg] = Some s' ->
-  (s' = s0 ++ push_text STFile P seg <-> known_c06_7 seg = false).
+  psm_extend_loop dbg STFile ps (s0 ++ P) [seg] = Some s' -> s' = s0 ++ push_text STFile P seg.
 Print Assumptions C06_7_class_exact_file.
 
-(* on "file:///a/b" (s0 = "file://", P = "/a/b"): push(".<TAB>.") pops, push("C|") is appended verbatim;
+(* on "file:///a/b" (s0 = "file://", P = "/a/b"): push(".<TAB>.") is skipped, push("C|") is appended verbatim;
    on the root path "/" push("C|") is rewritten to "C:" (outside the premise 1 < nlen P) *)
 Example C06_7_class_exact_file_inhabited :
   file_path_inv (B "/a/b") /\ (exists c r, B "/a/b" = 47 :: c :: r /\ c <> 47)
-  /\ psm_extend_loop true STFile 7 (B "file://" ++ B "/a/b") [[46; 9; 46]] = Some (B "file:///a/")
+  /\ psm_extend_loop true STFile 7 (B "file://" ++ B "/a/b") [[46; 9; 46]] = Some (B "file:///a/b")
   /\ psm_extend_loop true STFile 7 (B "file://" ++ B "/a/b") [B "C|"] = Some (B "file:///a/b/C|")
   /\ push_text STFile (B "/a/b") (B "C|") = B "/a/b/C|"
   /\ psm_extend_loop true STFile 7 (B "file://" ++ B "/") [B "C|"] = Some (B "file:///C:")
